@@ -16,10 +16,17 @@ import (
 type TestOnlyViolation struct {
 	Pos         token.Pos
 	TestOnlyObj string // Name of the @testonly object being used
+	ObjPkgPath  string // Package that declares the object (set for type usages)
 	Kind        annotations.TestOnlyKind
 	UsedInFile  string // File where @testonly object is used
 	Reason      string
 	Code        string // Error code from codes package
+}
+
+// typeKey identifies the used type for the once-per-file deduplication.
+// Types of different packages may share a name, so the package is part of the key.
+func (v TestOnlyViolation) typeKey() string {
+	return v.ObjPkgPath + "." + v.TestOnlyObj
 }
 
 // GetCode returns the error code for this violation
